@@ -1,12 +1,266 @@
 package main
 
-import "fxverif/lib"
+// tx.go (C02): who must sign a MsgClaim transaction versus whose vote is counted.
+// Real, fully signed transactions (SIGN_MODE_DIRECT) are delivered through the app's real
+// runTx path in finalize mode (ValidateBasic of every message, the whole ante chain incl.
+// signature verification against the signing context's required signers, message routing
+// through the MsgServiceRouter into the crosschain router MsgServer).
 
+import (
+	"fmt"
+	"strings"
+
+	sdkmath "cosmossdk.io/math"
+	storetypes "cosmossdk.io/store/types"
+	clienttx "github.com/cosmos/cosmos-sdk/client/tx"
+	codectypes "github.com/cosmos/cosmos-sdk/codec/types"
+	sdk "github.com/cosmos/cosmos-sdk/types"
+	"github.com/cosmos/cosmos-sdk/types/tx/signing"
+	authsigning "github.com/cosmos/cosmos-sdk/x/auth/signing"
+
+	fxtypes "github.com/functionx/fx-core/v8/types"
+	crosschaintypes "github.com/functionx/fx-core/v8/x/crosschain/types"
+
+	"fxverif/lib"
+)
+
+const outsiderBase = 300 // account ids >= 300: funded accounts that are nobody's bridger
+
+// TxCase: after `Oracles` equal-stake oracles are bonded (and `PreVotes` honest votes cast), one MsgClaim
+// transaction signed by account Signer, wrapper bridger_address = Wrapper, wrapped claim's bridger = Inner.
 type TxCase struct {
-	Signer  int `json:"signer"`
-	Wrapper int `json:"wrapper"`
-	Inner   int `json:"inner"`
+	Name     string `json:"name"`
+	Module   string `json:"module"`
+	Oracles  int    `json:"oracles"`
+	PreVotes []int  `json:"pre_votes,omitempty"` // bridger ids voting honestly for (nonce 1, variant 0) first
+	Signer   int    `json:"signer"`
+	Wrapper  int    `json:"wrapper"`
+	Inner    int    `json:"inner"`
+	Nonce    uint64 `json:"nonce"`
+	BadInner bool   `json:"bad_inner,omitempty"` // wrapped claim fails its own ValidateBasic (zero block height)
+	// a sequence of forged transactions instead of one (Signer signs all; Inner ranges over ForgeFor)
+	ForgeFor []int `json:"forge_for,omitempty"`
+	Bytes    bool  `json:"bytes"` // delivered as encoded bytes (true) or as a message object (false)
 }
 
-func txCases(seed int64, rep *lib.Report) {}
-func replayTx(rp Replay, rep *lib.Report) {}
+func (h *hist) accountKey(id int) lib.Key {
+	if id >= outsiderBase {
+		return lib.EthKey(h.seed, "outsider", id-outsiderBase)
+	}
+	return h.bridgerKey(id)
+}
+
+// deliverClaimTx builds, signs (by signer only) and delivers one MsgClaim transaction.
+// asBytes: through BaseApp.runTx in finalize mode on the encoded transaction (decode, ValidateBasic, ante chain,
+// message router).  Otherwise the same steps on the transaction object itself (ValidateBasic of each message,
+// the app's real ante handler, the real MsgServiceRouter handler; state committed only if all succeed) —
+// i.e. what runTx does once decoding has produced the message.
+func (h *hist) deliverClaimTx(asBytes bool, signer, wrapper, inner lib.Key, claim crosschaintypes.ExternalClaim) (requiredSigners []string, err error) {
+	app := h.c.App
+	ctx := h.c.Ctx
+	anyClaim, e := codectypes.NewAnyWithValue(claim)
+	lib.Must(e)
+	msg := &crosschaintypes.MsgClaim{ChainName: h.module, BridgerAddress: wrapper.Acc().String(), Claim: anyClaim}
+	// required signers according to the app's signing context
+	sgs, _, e := app.AppCodec().GetMsgV1Signers(msg)
+	lib.Must(e)
+	for _, s := range sgs {
+		requiredSigners = append(requiredSigners, sdk.AccAddress(s).String())
+	}
+
+	h.funded(signer.Acc())
+	acc := app.AccountKeeper.GetAccount(ctx, signer.Acc())
+	txCfg := app.GetTxConfig()
+	b := txCfg.NewTxBuilder()
+	lib.Must(b.SetMsgs(msg))
+	b.SetGasLimit(2_000_000)
+	b.SetFeeAmount(sdk.NewCoins(sdk.NewCoin(fxtypes.DefaultDenom, sdkmath.NewInt(10).MulRaw(1e18))))
+	mode := signing.SignMode_SIGN_MODE_DIRECT
+	lib.Must(b.SetSignatures(signing.SignatureV2{PubKey: signer.Priv.PubKey(), Data: &signing.SingleSignatureData{SignMode: mode}, Sequence: acc.GetSequence()}))
+	sd := authsigning.SignerData{ChainID: ctx.ChainID(), AccountNumber: acc.GetAccountNumber(), Sequence: acc.GetSequence(), PubKey: signer.Priv.PubKey(), Address: signer.Acc().String()}
+	sig, e := clienttx.SignWithPrivKey(ctx, mode, sd, b, signer.Priv, txCfg, acc.GetSequence())
+	lib.Must(e)
+	lib.Must(b.SetSignatures(sig))
+	defer func() {
+		if r := recover(); r != nil {
+			err = fmt.Errorf("PANIC: %v", r)
+		}
+	}()
+	if asBytes {
+		_, _, err = app.SimDeliver(txCfg.TxEncoder(), b.GetTx())
+		return requiredSigners, err
+	}
+	tx := b.GetTx()
+	bz, e := txCfg.TxEncoder()(tx)
+	lib.Must(e)
+	err, _ = h.try(func(cctx sdk.Context) error {
+		cctx = cctx.WithTxBytes(bz).WithGasMeter(storetypes.NewInfiniteGasMeter())
+		for _, m := range tx.GetMsgs() {
+			if hv, ok := m.(sdk.HasValidateBasic); ok {
+				if e := hv.ValidateBasic(); e != nil {
+					return e
+				}
+			}
+		}
+		actx, e := app.AnteHandler()(cctx, tx, false)
+		if e != nil {
+			return e
+		}
+		for _, m := range tx.GetMsgs() {
+			handler := app.MsgServiceRouter().Handler(m)
+			if handler == nil {
+				return fmt.Errorf("no message handler")
+			}
+			if _, e := handler(actx.WithEventManager(sdk.NewEventManager()), m); e != nil {
+				return e
+			}
+		}
+		return nil
+	})
+	return requiredSigners, err
+}
+
+func txScenarios() []TxCase {
+	return []TxCase{
+		{Name: "honest", Module: "eth", Oracles: 3, Signer: 1, Wrapper: 1, Inner: 1, Nonce: 1},
+		{Name: "outsider-signs-for-oracle-1", Module: "eth", Oracles: 3, Signer: outsiderBase, Wrapper: outsiderBase, Inner: 1, Nonce: 1},
+		{Name: "outsider-signs-wrapper-names-oracle", Module: "eth", Oracles: 3, Signer: outsiderBase, Wrapper: 1, Inner: 1, Nonce: 1},
+		{Name: "oracle-2-signs-vote-counted-for-oracle-0", Module: "eth", Oracles: 3, Signer: 2, Wrapper: 2, Inner: 0, Nonce: 1},
+		{Name: "outsider-claims-for-itself", Module: "eth", Oracles: 3, Signer: outsiderBase + 1, Wrapper: outsiderBase + 1, Inner: outsiderBase + 1, Nonce: 1},
+		{Name: "invalid-wrapped-claim", Module: "eth", Oracles: 3, Signer: 1, Wrapper: 1, Inner: 1, Nonce: 1, BadInner: true},
+		{Name: "outsider-after-honest-votes", Module: "tron", Oracles: 4, PreVotes: []int{0}, Signer: outsiderBase, Wrapper: outsiderBase, Inner: 2, Nonce: 1},
+		{Name: "outsider-second-vote-for-same-oracle", Module: "eth", Oracles: 3, PreVotes: []int{1}, Signer: outsiderBase, Wrapper: outsiderBase, Inner: 1, Nonce: 1},
+		{Name: "forged-quorum", Module: "eth", Oracles: 4, Signer: outsiderBase, Wrapper: outsiderBase, Inner: 0, Nonce: 1, ForgeFor: []int{0, 1, 2}},
+	}
+}
+
+// runTxCase executes one case on a fresh chain; returns the Coq items and whether the defect showed.
+func runTxCase(seed int64, tc TxCase, rep *lib.Report, verbose bool) (items []string) {
+	h := newHist(seed, tc.Module, "tx-"+tc.Name, rep, "C02")
+	var all []int
+	for i := 0; i < tc.Oracles; i++ {
+		all = append(all, i)
+	}
+	h.apply(Op{Kind: "gov", List: all})
+	for i := 0; i < tc.Oracles; i++ {
+		h.apply(Op{Kind: "bond", Oracle: i, Bridger: i, Ext: i, Stake: 20_000})
+	}
+	for _, b := range tc.PreVotes {
+		h.apply(vote(b, tc.Nonce, "call", 0))
+	}
+	inners := []int{tc.Inner}
+	if len(tc.ForgeFor) > 0 {
+		inners = tc.ForgeFor
+	}
+	for _, innerID := range inners {
+		signer, wrapper, inner := h.accountKey(tc.Signer), h.accountKey(tc.Wrapper), h.accountKey(innerID)
+		o := vote(innerID, tc.Nonce, "call", 0)
+		claim := h.mkClaim(o, inner.Acc().String())
+		if tc.BadInner {
+			claim.(*crosschaintypes.MsgBridgeCallClaim).BlockHeight = 0
+		}
+		cls := h.classID(tc.Nonce, claim.ClaimHash())
+		before := h.observe()
+		required, err := h.deliverClaimTx(tc.Bytes, signer, wrapper, inner, claim)
+		after := h.observe()
+		accepted := err == nil
+		var votes []int64
+		for _, a := range after.atts {
+			if a.nonce == tc.Nonce && a.cls == cls {
+				votes = a.votes
+			}
+		}
+		// ---- monitor (property text): a vote is cast only by an online oracle acting through its registered
+		// bridger — so every oracle that gained a vote must have its registered bridger among the accounts
+		// that had to sign the transaction ----
+		gained := gainedVoters(before, after)
+		for _, oid := range gained {
+			var regBridger string
+			for _, rec := range before.oracles {
+				if rec.id == oid && rec.bridger >= 0 {
+					regBridger = h.accountKey(int(rec.bridger)).Acc().String()
+				}
+			}
+			signedByBridger := false
+			for _, s := range required {
+				if s == regBridger {
+					signedByBridger = true
+				}
+			}
+			if !signedByBridger || signer.Acc().String() != regBridger {
+				rep.Fail(lib.Failure{Kind: "monitor",
+					What: fmt.Sprintf("a MsgClaim transaction whose only required signer is %s (signed by account %d) recorded a vote for oracle %d, whose registered bridger %s did not sign [%s]%s",
+						strings.Join(required, ","), tc.Signer, oid, regBridger, tc.Name,
+						map[bool]string{true: fmt.Sprintf("; last observed nonce is now %d", after.lastObs), false: ""}[after.lastObs != before.lastObs]),
+					Sig: "C02:signer-not-bridger", Replay: Replay{ChainSeed: seed, Module: tc.Module, Tx: &tc}})
+			}
+		}
+		rep.Case("tx/"+tc.Name+fmt.Sprint(innerID), true)
+		rep.Count(fmt.Sprintf("tx:%s:%s", map[bool]string{true: "bytes", false: "object"}[tc.Bytes], map[bool]string{true: "accepted", false: "rejected"}[accepted]))
+		if tc.Bytes && tc.Signer == tc.Wrapper && tc.Wrapper == innerID && !tc.BadInner && innerID < tc.Oracles && !accepted && strings.Contains(err.Error(), "expected claim type") {
+			noteOnce(rep, "observation (liveness, outside C01/C02): an honest MsgClaim transaction delivered as encoded bytes is rejected by MsgClaim.ValidateBasic "+
+				"('expected claim type ... got <nil>'): MsgClaim has no UnpackInterfaces, the wrapped Any has no cached value after decoding; "+
+				"on this tree no claim can be cast through a real transaction, which also masks the signer defect on that path")
+		}
+		if verbose {
+			fmt.Printf("tx %-45s signer=%d wrapper=%d inner=%d required=%v accepted=%v votes=%v lastObs=%d err=%s\n", tc.Name, tc.Signer, tc.Wrapper, innerID, required, accepted, votes, after.lastObs, short(err))
+		}
+		items = append(items, fmt.Sprintf("mk_tx_case %s\n\t[%s]\n\t%s [%d] %d %d %s %d %d true [] %s %s",
+			h.cfg, strings.Join(h.opsOnly, "; "), lib.Bool(tc.Bytes), tc.Signer, tc.Wrapper, innerID, lib.Bool(!tc.BadInner), tc.Nonce, cls, lib.Bool(accepted), lib.ZList(votes)))
+		// keep the model prefix in step with what happened on the chain
+		if accepted {
+			h.opsOnly = append(h.opsOnly, fmt.Sprintf("Vote %d %d %d true []", innerID, tc.Nonce, cls))
+		}
+	}
+	return items
+}
+
+func gainedVoters(before, after obsT) []int64 {
+	count := func(ob obsT) map[int64]int {
+		m := map[int64]int{}
+		for _, a := range ob.atts {
+			for _, v := range a.votes {
+				m[v]++
+			}
+		}
+		return m
+	}
+	b, a := count(before), count(after)
+	var out []int64
+	for id, n := range a {
+		if n > b[id] {
+			out = append(out, id)
+		}
+	}
+	return out
+}
+
+func noteOnce(rep *lib.Report, s string) {
+	for _, n := range rep.Notes {
+		if n == s {
+			return
+		}
+	}
+	rep.Notes = append(rep.Notes, s)
+}
+
+func txCases(seed int64, rep *lib.Report) {
+	var items []string
+	for i, tc := range txScenarios() {
+		for _, asBytes := range []bool{false, true} {
+			tc.Bytes = asBytes
+			items = append(items, runTxCase(seed*7919+int64(i), tc, rep, false)...)
+		}
+	}
+	lib.WriteCases("Cases_C02tx.v", []string{"model.M_Attest", "model.M_AttestCorr"}, "tx_case", items, "tx_mismatch")
+}
+
+func replayTx(rp Replay, rep *lib.Report) {
+	runTxCase(rp.ChainSeed, *rp.Tx, rep, true)
+	for _, f := range rep.Failures {
+		fmt.Println("MONITOR:", f.What)
+	}
+	if len(rep.Failures) == 0 {
+		fmt.Println("replay: no monitor failure on this tree")
+	}
+}
